@@ -9,6 +9,7 @@ import tempfile
 
 from . import c20_exec, common
 from .common import coq_bool, coq_option, coq_str
+from .wfutil import WF
 
 PID = "C20"
 PROPS_FILE = "props/C20.v"
@@ -748,6 +749,122 @@ def check_targets(ctx, n):
     return found
 
 
+# ---------------------------------------------------------------------------------------------
+# api.step() -> real Workflow -> api.get_info(): the paths handed back to the step
+# ---------------------------------------------------------------------------------------------
+
+GETINFO_FIXED = [
+    # (root, HERE of the declaring step, workdir argument, input path, output path)
+    ("/T/project", ".", "sub/", "/T/ext/table.csv", "out.txt"),          # absolute input, nested workdir
+    ("/T/project", ".", "../shared/", "inp.txt", "out.txt"),             # workdir outside the root
+    ("/T/project", "sub", "./", "../data/a.txt", "b.txt"),
+    ("/T/project", "sub", "../other/", "x.txt", "../sub/y.txt"),
+    ("/T/project", "../shared", "./", "in.txt", "/T/project/gen/out.txt"),
+    ("/T/project", ".", "./", "a.txt", "d/e/o.txt"),
+    ("/T/project", "a/b", "../../", "/abs/elsewhere.txt", "o.txt"),
+]
+
+
+class _LoopbackRPC:
+    """What the director does with the two RPCs of this round trip, on a REAL in-memory Workflow: define_step ->
+    Workflow.define_step (creator: the plan step), get_step_info -> the real Step.get_info() of that step."""
+
+    def __init__(self, w):
+        self.w, self.step = w, None
+
+    @property
+    def call(self):
+        return self
+
+    def define_step(self, job_i, command, inp, env, out, vol, workdir, need, resources, shell, env_overrides, duration):
+        from stepup.core.enums import Need
+        from stepup.core.step import Step
+        # the inputs exist as confirmed static files (Step.get_info lists declared inputs only)
+        self.w.confirm_static(self.w.plan, sorted(set(map(str, inp))))
+        self.w.wf.define_step(self.w.plan, command, inp_paths=list(map(str, inp)), env_deps=list(env),
+                              out_paths=list(map(str, out)), vol_paths=list(map(str, vol)), workdir=str(workdir),
+                              need=Need(need))
+        label = Step.adjust_label(command, str(workdir)) if hasattr(Step, "adjust_label") else command
+        self.step = self.w.wf.find(Step, label)
+
+    def get_step_info(self, job_i):
+        return self.step.get_info()
+
+
+async def _getinfo_cases(ctx, cases):
+    from stepup.core import api
+    from stepup.core.exceptions import GraphError
+    found = {}
+    saved = api.get_rpc_client
+    saved_job = os.environ.get("STEPUP_JOB_I")
+    os.environ["STEPUP_JOB_I"] = "1"
+    try:
+        for root, here, wd, pin, pout in cases:
+            wit = {"get_info": {"root": root, "here": here, "workdir": wd, "inp": pin, "out": pout}}
+            async with WF() as w:
+                rpc = _LoopbackRPC(w)
+                api.get_rpc_client = lambda path=None, rpc=rpc: rpc
+                parent_cwd = lex(root, here)
+                try:
+                    async with w.db:
+                        with patched(parent_cwd, root, here):
+                            api.step("work", inp=[pin], out=[pout], workdir=wd)
+                        if rpc.step is None:
+                            raise LookupError("the defined step was not found")
+                        rec = rpc.step.get_info()
+                        tr_wd = str(rec.workdir)
+                        step_cwd = lex(root, tr_wd)
+                        # the executor runs the step in root/workdir with HERE = workdir (C20_exec_ROOT_HERE)
+                        with patched(step_cwd, root, posixpath.normpath(tr_wd)):
+                            info = api.get_info()
+                except (GraphError, ValueError, LookupError) as e:
+                    ctx.count(f"get_info:skipped:{type(e).__name__}")
+                    continue
+                except Exception as e:  # noqa: BLE001
+                    found.setdefault("oracle:get_info:raises", (f"{type(e).__name__}: {e} for {wit}", wit))
+                    continue
+            ctx.case(("get_info", root, here, wd, pin, pout), nontrivial(wd, pin) or here != ".")
+            named_dir = lex(parent_cwd, wd)          # paths given to api.step are relative to the new step's workdir
+            for field, given in (("inp", pin), ("out", pout)):
+                recorded = sorted(lex(root, str(q)) for q in getattr(rec, field))
+                back = sorted(lex(step_cwd, str(r)) for r in getattr(info, field))
+                if back != recorded:
+                    found.setdefault(f"oracle:get_info:{field}:not-the-recorded-file",
+                                     (f"step in {step_cwd!r} (root {root!r}): the director recorded {field} "
+                                      f"{[str(q) for q in getattr(rec, field)]} = {recorded}; get_info() hands back "
+                                      f"{[str(r) for r in getattr(info, field)]}, which designate {back} from the step's directory", wit))
+                elif lex(named_dir, given) not in back:
+                    found.setdefault(f"oracle:get_info:{field}:not-the-declared-file",
+                                     (f"declared {given!r} in {named_dir!r}; get_info() designates {back}", wit))
+    finally:
+        api.get_rpc_client = saved
+        if saved_job is None:
+            os.environ.pop("STEPUP_JOB_I", None)
+        else:
+            os.environ["STEPUP_JOB_I"] = saved_job
+    return found
+
+
+def check_get_info(ctx, n):
+    """Real api.step() in the declaring step's context, a real Workflow behind a loopback RPC client, real
+    Step.get_info() and real api.get_info() in the context the executor gives the new step: every inp / out path
+    handed back must designate, from the step's working directory, the file the director recorded (and the file that
+    was declared).  Absolute inputs, workdirs outside the root, HERE outside the root.  Implementation only."""
+    from .wfutil import run
+    rng = ctx.rng
+    cases = list(GETINFO_FIXED)
+    for _ in range(n):
+        root = rand_root(rng)
+        here = rand_here(rng)
+        wd = rand_workdir(rng)
+        pin = rand_path(rng) if rng.random() < 0.4 else rand_rel_path(rng)
+        pout = rand_rel_path(rng)
+        if not pin or not pout or pin.endswith("/") or pout.endswith("/") or "\x00" in pin + pout + wd:
+            continue
+        cases.append((root, here, wd if wd.endswith("/") else wd + "/", pin, pout))
+    return run(_getinfo_cases(ctx, cases))
+
+
 CLI_CASES = [("sub", "here.txt"), ("sub", "./here.txt"), ("sub/deep", "../x/"), ("", "out.txt"), ("sub", "../top.txt"),
              ("sub", "d/e/"), ("sub/deep", "../../a/b.txt")]
 
@@ -837,6 +954,8 @@ def oracle(ctx):
     ensure_facts(ctx, "oracle")
     for sig, (detail, witness) in sorted(check_cli_call_site(ctx).items()):
         ctx.add_failure("oracle", sig, sig, detail, witness=witness)
+    for sig, (detail, witness) in sorted(check_get_info(ctx, ctx.scale(150, 1500)).items()):
+        ctx.add_failure("oracle", sig, sig, detail, witness=witness)
     for sig, (detail, witness) in sorted(check_targets(ctx, ctx.scale(400, 5000)).items()):
         ctx.add_failure("oracle", sig, sig, detail, witness=witness)
     found = run_oracle(ctx, ctx.scale(1500, 20000))
@@ -866,6 +985,7 @@ def search(ctx):
     found = run_oracle(ctx, 40000 if ctx.thorough() else 12000)
     found.update(check_targets(ctx, 4000))
     found.update(check_cli_call_site(ctx))
+    found.update(check_get_info(ctx, 1500))
     for sig, (detail, witness) in sorted(found.items()):
         ctx.add_failure("oracle", sig, sig + ":search", detail, witness=witness)
 
@@ -874,7 +994,12 @@ def replay(ctx, obj):
     w = obj["failure"].get("witness") or {}
     ensure_facts(ctx, "replay")
     print("replaying", w)
-    if "cli" in w:
+    if "get_info" in w:
+        from .wfutil import run
+        g = w["get_info"]
+        for sig, (detail, witness) in sorted(run(_getinfo_cases(ctx, [(g["root"], g["here"], g["workdir"], g["inp"], g["out"])])).items()):
+            ctx.add_failure("oracle", sig, sig, detail, witness=witness)
+    elif "cli" in w:
         c = w["cli"]
         for sig, (detail, witness) in sorted(check_cli_call_site(ctx, [("" if c["typed_in"] == "." else c["typed_in"], c["raw"])]).items()):
             ctx.add_failure("oracle", sig, sig, detail, witness=witness)
